@@ -352,6 +352,24 @@ func hasPriceComponent(e *Env, v ssa.Value, field string, depth int) bool {
 		if x.Op == token.ADD {
 			return hasPriceComponent(e, x.X, field, depth+1) || hasPriceComponent(e, x.Y, field, depth+1)
 		}
+	case *ssa.Extract:
+		// one result of a helper that prices a pair and reports something else as well (`cost, changed := price(…)`)
+		call, ok := x.Tuple.(*ssa.Call)
+		if !ok {
+			return false
+		}
+		sc := call.Call.StaticCallee()
+		if sc == nil || len(sc.Blocks) == 0 || sc.Pkg == nil || !strings.HasPrefix(sc.Pkg.Pkg.Path(), modPath) || e.depth >= maxDepth {
+			return false
+		}
+		sub := e.Sub(call, sc)
+		rets := returnsOf(sc)
+		for _, r := range rets {
+			if x.Index >= len(r.Results) || !hasPriceComponent(sub, retval(r, x.Index), field, depth+1) {
+				return false
+			}
+		}
+		return len(rets) > 0
 	case *ssa.Call:
 		sc := x.Call.StaticCallee()
 		if sc == nil || len(sc.Blocks) == 0 || sc.Pkg == nil || !strings.HasPrefix(sc.Pkg.Pkg.Path(), modPath) || e.depth >= maxDepth {
@@ -449,6 +467,7 @@ func c16r7(c *Ctx) {
 		}
 	}
 	n := 0
+	writeLoops := 0
 	for _, h := range fn.Blocks {
 		// the loop over the pairs: a loop header (a back edge arrives from a block it dominates) whose loop contains the
 		// storage write of the pairs, directly or in a helper — whatever drives it (a counter, a slice consumed two at a time)
@@ -482,6 +501,7 @@ func c16r7(c *Ctx) {
 		if !writes {
 			continue
 		}
+		writeLoops++
 		has := false
 		for b := range charges {
 			if inLoop(b) {
@@ -489,6 +509,13 @@ func c16r7(c *Ctx) {
 			}
 		}
 		if !has {
+			if len(charges) > 0 {
+				// the pairs are written here but priced somewhere else (a pass of its own before the first write)
+				n++
+				c.FailX(Oblig{Rule: rule, Func: FuncName(fn), Construct: "pair loop at " + c.P.InstrPos(h.Instrs[0]) + ": every turn adds a PersistPerByte component", Pos: c.P.InstrPos(h.Instrs[0]), Kind: "violation",
+					Detail:   "the loop that writes the pairs adds no per-byte charge: the pairs are priced in a separate pass, against the values stored before the call — a key listed twice is charged for growth it does not cause (or not for growth it does), so the gas consumed is not the schedule's price of what was stored",
+					Expected: "each pair is priced in the turn that writes it, against what the account holds at that moment"})
+			}
 			continue
 		}
 		n++
@@ -527,6 +554,7 @@ func c16r7(c *Ctx) {
 				Expected: "useGas += (len(key)+len(value)) * PersistPerByte for every listed pair, before any shortcut"})
 		}
 	}
+	_ = writeLoops
 	if n == 0 {
 		c.Anchor(rule, "the pair loop of SaveKeyValue with its persist charge")
 	}
